@@ -508,10 +508,31 @@ Record sobs := SObs {
 (* a step: result, whether the config write / the status save of this call was applied-but-reported-failed, before, after *)
 Definition sstep := (res * bool * bool * sobs * sobs)%type.
 Definition scase := list sstep.
+(* config.NormalizeReplicationMode: lower case, '_' for '-' *)
+Definition lower_ascii (c : Ascii.ascii) : Ascii.ascii :=
+  let n := Ascii.nat_of_ascii c in if (Nat.leb 65 n && Nat.leb n 90)%bool then Ascii.ascii_of_nat (n + 32) else c.
+Fixpoint norm_mode (s : string) : string :=
+  match s with
+  | EmptyString => EmptyString
+  | String c r => String (if Ascii.eqb c "_" then "-"%char else lower_ascii c) (norm_mode r)
+  end.
+(* whatever is served to stores is a status that was allocated and persisted: storage holds it, or a later one *)
+Definition served_is_persisted (b : sobs) : list string :=
+  match so_status b with
+  | Some x => match so_stored b with
+              | Some y => if (0 <? st_id x) && (status_eqb y x || (st_id x <? st_id y)) then [] else ["C19:served-status-not-persisted"]
+              | None => ["C19:served-status-not-persisted"]
+              end
+  | None => []
+  end.
 Definition mon_sstep (st : sstep) : list string :=
   let '(r, cfg_unknown, st_unknown, a, b) := st in
+  served_is_persisted b ++
   if res_eqb r ROk then
-    (if String.eqb (so_cmode b) (so_rmode b) && String.eqb (so_clabel b) (so_rlabel b) then [] else ["C19:accepted-mode-config-not-reloaded"])
+    ((if String.eqb (so_cmode b) (so_rmode b) && String.eqb (so_clabel b) (so_rlabel b) then [] else ["C19:accepted-mode-config-not-reloaded"]) ++
+     (* an accepted dr-auto-sync configuration (in any accepted spelling) is in effect: stores are told so *)
+     (if String.eqb (norm_mode (so_cmode b)) "dr-auto-sync" && match so_status b with None => true | Some _ => false end
+      then ["C19:accepted-dr-auto-sync-mode-not-in-effect"] else []))%list
   else
     ((if String.eqb (so_mode a) (so_mode b) && String.eqb (so_label a) (so_label b) && opt_eqb status_eqb (so_status a) (so_status b)
       then [] else ["C19:failed-mode-config-change-altered-served-status"]) ++
@@ -524,3 +545,13 @@ Definition mon_sstep (st : sstep) : list string :=
 Definition monitor_s (c : scase) : list string := nodup string_dec (flat_map mon_sstep c).
 Definition monitor_s_fails (cs : list scase) : list (nat * string) :=
   flat_map (fun ic : nat * scase => map (fun sg => (fst ic, sg)) (monitor_s (snd ic))) (number_from 0 cs).
+
+(* ---------- the FileReplicater behind the interface: Server.ReplicateFileToAllMembers on a real cluster of several members ----------
+   "offered to all members": every member that can be reached holds the file afterwards, wherever an unreachable member sits in the
+   member list.  One entry per member: name, reachable?, does its DR_STATE file hold the offered content afterwards? *)
+Definition fcase := list (string * bool * bool).
+Definition monitor_f (c : fcase) : list string :=
+  if forallb (fun e : string * bool * bool => let '(_, alive, has) := e in negb alive || has) c then []
+  else ["C19:reachable-member-not-offered-the-dr-state-file"].
+Definition monitor_f_fails (cs : list fcase) : list (nat * string) :=
+  flat_map (fun ic : nat * fcase => map (fun sg => (fst ic, sg)) (monitor_f (snd ic))) (number_from 0 cs).
